@@ -353,20 +353,20 @@ func checkC14(w *World, r *Report) {
 		okF, okT := len(empty) > 0, true
 		detF, detT := "no len == 0 test", ""
 		emptyReach := reachFromEdges(g, empty, nil)
-		for _, x := range g.returns {
-			rs := g.ins[x].(*ssa.Return).Results
+		for _, rc := range g.retCases() {
+			rs := rc.res
 			flag := w.pathOf(rs[len(rs)-1])
 			switch flag {
 			case "K:false":
-				if !g.OnlyVia(empty, x) {
+				if !rc.onlyVia(g, empty) {
 					okF, detF = false, "a `false` return is reachable with a non-empty ring"
 				}
 			case "K:true":
-				if emptyReach[x] {
+				if rc.reachedFrom(g, empty) {
 					okT, detT = false, "a `true` return is reachable on the empty edge"
 				}
 				// exactly one decrement on every path to this return
-				if !g.Before(dec, x) {
+				if !rc.before(g, dec) {
 					okT, detT = false, "a `true` return is reachable without decrementing len"
 				}
 			default:
